@@ -368,8 +368,8 @@ def stages(tier):
             EnumStage("triples", triple_cases, shards=6, scope="every ordered triple of 17 field kinds (incl. enum-, char- and 24-bit-backed bit-fields) x {packed, aligned} (~9800 definitions) x full input, all cut points, one raw input"),
         ]
     return [
-        HypStage("diff", diff_case, examples=2000, shards=16),
-        HypStage("custom-types", custom_case, examples=2500, shards=4),
-        HypStage("explicit-offsets", offsets_case, examples=3000, shards=4),
+        HypStage("diff", diff_case, examples=6000, shards=16),
+        HypStage("custom-types", custom_case, examples=6000, shards=4),
+        HypStage("explicit-offsets", offsets_case, examples=8000, shards=4),
         EnumStage("triples", triple_cases, shards=8, scope="every ordered triple of 17 field kinds (incl. enum-, char- and 24-bit-backed bit-fields) x {packed, aligned} (~9800 definitions) x full input, all cut points, one raw input"),
     ]
